@@ -4,11 +4,12 @@ from core import *
 from core import verdicts as core_verdicts
 
 PID = "C12"
-NFRAG, NMODELS = 12, 6
+NFRAG, NMODELS = 13, 8
 FRAG = {1: "partition model solved", 2: "class-LMI + user LMI model solved", 3: "composite function model solved",
         4: "linear operator with transpose + LMI solved", 5: "construction that raises", 6: "model built and abandoned",
         7: "unbounded solve (None)", 8: "solved model kept referenced and evaluated", 9: "verbose solve",
-        10: "solve with trace heuristic", 11: "unsent LMI object, named point, solved", 12: "good solve then infeasible solve"}
+        10: "solve with trace heuristic", 11: "unsent LMI object, named point, solved", 12: "good solve then infeasible solve",
+        13: "DSL objects built with the bare classes, no PEP"}
 
 
 def _cfg(maxhist, forget="{}", trace=False, emit=True):
@@ -40,14 +41,16 @@ def judge(res, traces, wd):
 def run_items(items):
     # references: each model B alone, in a FRESH interpreter (one task per worker process)
     refs = {}
-    ref_items = sorted({(it["b"], it["verbose"]) for it in items})
+    ref_items = sorted({(it["b"], v) for it in items for v in (0, 1)})
     outs = pool_map("drv_c12", "run", [dict(hist=[], b=b, verbose=v) for b, v in ref_items], maxtasksperchild=1, chunksize=1)
     for (b, v), o in zip(ref_items, outs):
         refs[(b, v)] = o
     traces = pool_map("drv_c12", "run", items, maxtasksperchild=1, chunksize=1)
     for t in traces:
         r = refs[(t["b"], t["verbose"])]
-        t.update(ref_snap=r["snap"], ref_hash=r["hash"], ref_rows=r["rows"], ref_val=r["val"], ref_out=r["out"])
+        o = refs.get((t["b"], 1 - t["verbose"]), r)      # the same model at the other verbosity level
+        t.update(ref_snap=r["snap"], ref_hash=r["hash"], ref_rows=r["rows"], ref_val=r["val"], ref_out=r["out"],
+                 oth_hash=o["hash"], oth_rows=o["rows"], oth_val=o["val"])
     return traces
 
 
